@@ -169,6 +169,13 @@ def run_case(case):
     if case["dd"] == "uint8" and np.dtype(case["df"]).kind in "iu":
         filt = np.abs(filt)           # (unsigned counts with non-negative taps: no wrap-around)
     integer = data.dtype.kind in "iu" and filt.dtype.kind in "iu"
+    if integer:
+        # keep the exact result representable in the operands' common integer type (a long
+        # filter over uint8 / int16 counts would wrap around - not a question of convolution)
+        rt_ = np.result_type(data.dtype, filt.dtype)
+        bound_ = int(np.prod(n)) * (case["ci"] if multi else 1) * 16
+        if bound_ > np.iinfo(rt_).max // 2:
+            data = data.astype(np.int64)
     md, mf = case.get("mag", [1, 1])     # magnitudes: convolution is bilinear, so homogeneous
     if md != 1:
         data = data * data.dtype.type(md)
